@@ -27,8 +27,15 @@
   `w ≤ B` (a call larger than the burst is not throttled, F27) and time-ordered stamps (concurrent
   callers reach the bucket out of order and x/time/rate credits the backward step twice, F28 — the
   bound with the explicit `jitter` term is `c20_throughput_bound_jitter_partial`).
+
+  Stacking (`Model/C20Stack.lean`): `forwarder.Listener` builds a chain of listener values; in every
+  combination of PROXY protocol, TLS and traffic tracking the limiter wrapper is on the chain of every
+  accepted connection whenever a limit is set (`c20_every_stacking_is_limited`), so the bound is the
+  listener's in every stacking (`c20_stacking_bound_partial`).  A PROXY wrapper handed the raw listener
+  next to the limiter drops both limits (`c20_sibling_proxy_drops_limits_witness`).
 -/
 import FwdVerif.Lemmas.C20
+import FwdVerif.Model.C20Stack
 
 namespace FwdVerif
 namespace C20
@@ -551,6 +558,149 @@ theorem c20_bound_live_context_partial (cx : WaitCtx) (l : Limiter) (w k : Nat) 
 example : liveAtCalls .listener Life.start [.call ⟨0, 0, 2⟩, .call ⟨0, 0, 2⟩, .listenerClose] = true ∧
     liveAtCalls .listener Life.start [.call ⟨0, 0, 2⟩, .listenerClose, .call ⟨0, 0, 2⟩] = false ∧
     liveAtCalls .listener Life.start [.listenerClose, .listenerOpen, .call ⟨0, 0, 2⟩] = true := by
+  decide
+
+/-! ### stacking: the limiter is on the byte path of every accepted connection
+
+`forwarder.Listener.Listen` hands each wrapper the listener it is to wrap (`LExpr`), `Accept` adds the
+tracker and TLS; `limitersIn s c` = the limiters a connection stacked as `s` meters its bytes with. -/
+
+open C08 (Layer StackCfg)
+
+/-- `Listen` + `Accept` build the stack of `Model/C08Stack.lean` (socket, PROXY layer, limiter,
+    tracker, TLS), in every configuration. -/
+theorem c20_listener_stack_is_product_stack (c : StackCfg) : listenerStack c = C08.productStack c := by
+  unfold listenerStack acceptLayers listenExpr C08.productStack
+  cases c.proxy <;> cases c.limited <;> simp [LExpr.layers]
+
+example : listenerStack { proxy := true, readLimit := 1048576, tls := true } =
+    [Layer.proxyproto, Layer.ratelimit, Layer.track, Layer.tls] := by decide
+
+/-- **Every stacking is limited.** Whatever the other layers - PROXY protocol on or off, TLS or
+    plain, traffic tracking on or off - a connection accepted from `forwarder.Listener` meters its
+    bytes with exactly the limiters of `NewListener(ReadLimit, WriteLimit)`: a read limit puts the tx
+    limiter of that rate (burst by the rule) on the path of its writes, a write limit the rx limiter on
+    the path of its reads, and a limit of 0 puts none there. -/
+theorem c20_every_stacking_is_limited (c : StackCfg) :
+    limitersIn (listenerStack c) c = newListener (c.readLimit : Int) (c.writeLimit : Int) ∧
+    (0 < c.readLimit →
+      (limitersIn (listenerStack c) c).limiter .tx = some { rate := c.readLimit, burst := burstOf c.readLimit }) ∧
+    (0 < c.writeLimit →
+      (limitersIn (listenerStack c) c).limiter .rx = some { rate := c.writeLimit, burst := burstOf c.writeLimit }) ∧
+    (c.readLimit = 0 → (limitersIn (listenerStack c) c).limiter .tx = none) ∧
+    (c.writeLimit = 0 → (limitersIn (listenerStack c) c).limiter .rx = none) := by
+  have h : limitersIn (listenerStack c) c = newListener (c.readLimit : Int) (c.writeLimit : Int) := by
+    rw [c20_listener_stack_is_product_stack]
+    unfold limitersIn C08.productStack
+    by_cases hl : c.limited = true
+    · cases c.proxy <;> cases c.tls <;> simp [hl]
+    · have hl' : c.limited = false := by simpa using hl
+      have h0 : c.readLimit = 0 ∧ c.writeLimit = 0 := by
+        simp only [StackCfg.limited, Bool.or_eq_false_iff, decide_eq_false_iff_not] at hl'
+        omega
+      cases c.proxy <;> cases c.tls <;> simp [hl', h0.1, h0.2, newListener]
+  refine ⟨h, ?_, ?_, ?_, ?_⟩ <;> intro hh <;> rw [h] <;> simp only [newListener, Listener.limiter]
+  · have : ¬ c.readLimit = 0 := by omega
+    simp [this, newRateLimiter]
+  · have : ¬ c.writeLimit = 0 := by omega
+    simp [this, newRateLimiter]
+  · simp [hh]
+  · simp [hh]
+
+/-- non-vacuity: all twelve combinations of the other layers, read limit only -/
+example : ∀ p t k : Bool,
+    (limitersIn (listenerStack { proxy := p, tls := t, trackTraffic := k, readLimit := 1048576 })
+      { proxy := p, tls := t, trackTraffic := k, readLimit := 1048576 }).limiter .tx = some ⟨1048576, 4194304⟩ ∧
+    (limitersIn (listenerStack { proxy := p, tls := t, trackTraffic := k, readLimit := 1048576 })
+      { proxy := p, tls := t, trackTraffic := k, readLimit := 1048576 }).limiter .rx = none := by decide
+
+/-- the limiters on a connection's path are a function of the two limits alone: changing the other
+    layers changes nothing -/
+theorem c20_stacking_other_layers_irrelevant (c : StackCfg) (p t k : Bool) :
+    limitersIn (listenerStack { c with proxy := p, tls := t, trackTraffic := k })
+        { c with proxy := p, tls := t, trackTraffic := k } = limitersIn (listenerStack c) c := by
+  rw [(c20_every_stacking_is_limited c).1, (c20_every_stacking_is_limited _).1]
+
+/-- **The bound in every stacking** (`c20_listener_bound_partial` through the stack): for every
+    configuration of the other layers and every schedule of calls on `k` accepted connections that is
+    valid for the limiters on their path, each limited direction obeys the bound. -/
+theorem c20_stacking_bound_partial (c : StackCfg) (w k : Nat) (ops : List Op) (t0 t1 : Nat)
+    (hw : w ≤ 4194304) (hv : validSched (limitersIn (listenerStack c) c) w k ops = true) (h01 : t0 ≤ t1) :
+    (0 < c.readLimit →
+      bytesInDir .tx ops t0 t1 * nsPerSec ≤ (burstOf c.readLimit + k * w) * nsPerSec + c.readLimit * (t1 - t0 + 1)) ∧
+    (0 < c.writeLimit →
+      bytesInDir .rx ops t0 t1 * nsPerSec ≤ (burstOf c.writeLimit + k * w) * nsPerSec + c.writeLimit * (t1 - t0 + 1)) := by
+  rw [(c20_every_stacking_is_limited c).1] at hv
+  have h := c20_listener_bound_partial (c.readLimit : Int) (c.writeLimit : Int) w k ops t0 t1 hw hv h01
+  simp only [Int.toNat_natCast] at h
+  exact ⟨fun hr => h.1 (by omega), fun hwl => h.2 (by omega)⟩
+
+example : validSched (limitersIn (listenerStack { proxy := true, tls := true, readLimit := 1048576 })
+      { proxy := true, tls := true, readLimit := 1048576 }) 2097152 2
+      [⟨0, 0, .tx, 2097152⟩, ⟨0, 1, .tx, 2097152⟩, ⟨0, 0, .rx, 999⟩, ⟨0, 0, .tx, 1048576⟩,
+       ⟨1000000000, 0, .tx, 1048576⟩] = true := by decide
+
+/-- a limit of 0 in a stacking: the call returns when its I/O is done, no state changes -/
+theorem c20_stacking_zero_limit_identity (c : StackCfg) (s : Sys) (op : Op)
+    (h : (op.dir = .tx ∧ c.readLimit = 0) ∨ (op.dir = .rx ∧ c.writeLimit = 0)) :
+    stackStep (listenerStack c) c s op = (s, op.time) := by
+  unfold stackStep
+  rw [(c20_every_stacking_is_limited c).1]
+  refine c20_zero_limit_identity _ _ s op ?_
+  rcases h with ⟨hd, h0⟩ | ⟨hd, h0⟩
+  · exact Or.inl ⟨hd, by omega⟩
+  · exact Or.inr ⟨hd, by omega⟩
+
+/-- the clauses do not care about the ORDER of limiter and PROXY layer: the limiter moved to the
+    socket with the PROXY wrapper handed the rate-limited listener gives the stack
+    `C08.limiterFirstStack` and the same limiters on every connection's path (what that order breaks
+    is C08's header timeout: `c08_header_not_rate_limited`). -/
+theorem c20_limiter_first_is_limited (c : StackCfg) :
+    acceptLayers (limiterFirstListenExpr c) c = C08.limiterFirstStack c ∧
+    limitersIn (acceptLayers (limiterFirstListenExpr c) c) c = limitersIn (listenerStack c) c := by
+  have h1 : acceptLayers (limiterFirstListenExpr c) c = C08.limiterFirstStack c := by
+    unfold acceptLayers limiterFirstListenExpr C08.limiterFirstStack
+    cases c.proxy <;> cases c.limited <;> simp [LExpr.layers]
+  refine ⟨h1, ?_⟩
+  rw [h1, c20_listener_stack_is_product_stack]
+  unfold limitersIn C08.limiterFirstStack C08.productStack
+  cases c.proxy <;> cases c.limited <;> cases c.tls <;> simp
+
+/-- **A PROXY wrapper handed the raw listener drops the limits** - characterised for every
+    configuration: with the PROXY protocol on, no limiter is on any connection's path whatever the
+    limits (every call returns when its I/O is done); with it off the listener value is the code's. -/
+theorem c20_sibling_proxy_characterised (c : StackCfg) :
+    (c.proxy = true →
+      limitersIn (acceptLayers (siblingListenExpr c) c) c = { rxLimiter := none, txLimiter := none } ∧
+      ∀ s op, stackStep (acceptLayers (siblingListenExpr c) c) c s op = (s, op.time)) ∧
+    (c.proxy = false → siblingListenExpr c = listenExpr c) ∧
+    (c.limited = false → acceptLayers (siblingListenExpr c) c = listenerStack c) := by
+  refine ⟨fun hp => ?_, fun hp => ?_, fun hl => ?_⟩
+  · have h : limitersIn (acceptLayers (siblingListenExpr c) c) c = { rxLimiter := none, txLimiter := none } := by
+      unfold limitersIn acceptLayers siblingListenExpr
+      cases c.tls <;> simp [hp, LExpr.layers]
+    refine ⟨h, fun s op => ?_⟩
+    unfold stackStep
+    rw [h]
+    cases hd : op.dir <;> simp [step, Listener.limiter, hd]
+  · simp [siblingListenExpr, listenExpr, hp]
+  · unfold listenerStack
+    simp [siblingListenExpr, listenExpr, hl]
+
+/-- kernel-checked witness: PROXY protocol on, 1 MiB/s both ways.  The code's stack has both limiters
+    on the path and makes a 1 MiB write on an empty bucket wait a second; the sibling variant has none
+    and returns at once - while either feature alone is what the code builds. -/
+theorem c20_sibling_proxy_drops_limits_witness :
+    let c : StackCfg := { proxy := true, readLimit := 1048576, writeLimit := 1048576 }
+    (limitersIn (listenerStack c) c).limiter .tx = some ⟨1048576, 4194304⟩ ∧
+    (limitersIn (listenerStack c) c).limiter .rx = some ⟨1048576, 4194304⟩ ∧
+    (stackStep (listenerStack c) c ⟨⟨0, 0⟩, ⟨0, 3⟩⟩ ⟨3, 0, .tx, 1048576⟩).2 = 1000000003 ∧
+    acceptLayers (siblingListenExpr c) c = [Layer.proxyproto, Layer.track] ∧
+    (limitersIn (acceptLayers (siblingListenExpr c) c) c).limiter .tx = none ∧
+    (limitersIn (acceptLayers (siblingListenExpr c) c) c).limiter .rx = none ∧
+    (stackStep (acceptLayers (siblingListenExpr c) c) c ⟨⟨0, 0⟩, ⟨0, 3⟩⟩ ⟨3, 0, .tx, 1048576⟩).2 = 3 ∧
+    siblingListenExpr { c with proxy := false } = listenExpr { c with proxy := false } ∧
+    siblingListenExpr { c with readLimit := 0, writeLimit := 0 } = listenExpr { c with readLimit := 0, writeLimit := 0 } := by
   decide
 
 end C20
